@@ -43,6 +43,23 @@ func main() {
 			os.Exit(1)
 		}
 		fmt.Println("OK")
+	case "twice":
+		// probe twice '<content>': ToJson called twice on one catalog, and on two builds
+		j, je := kit.NewJApiFromFile(fs.NewFile("root.jst", os.Args[2]))
+		if je != nil {
+			fmt.Println("BUILD ERROR:", je.Error())
+			os.Exit(1)
+		}
+		a, _ := j.ToJson()
+		b, _ := j.ToJson()
+		j2, _ := kit.NewJApiFromFile(fs.NewFile("root.jst", os.Args[2]))
+		c, _ := j2.ToJson()
+		fmt.Println("same catalog, two calls equal:", string(a) == string(b))
+		fmt.Println("two builds equal:", string(a) == string(c))
+		if string(a) != string(b) {
+			fmt.Println(string(a))
+			fmt.Println(string(b))
+		}
 	case "oa":
 		// probe oa '<content>': build and export OpenAPI
 		j, je := kit.NewJApiFromFile(fs.NewFile("root.jst", os.Args[2]))
